@@ -27,7 +27,7 @@ Theorem C10_accumulate_md : forall f start s l,
   fold_outs (KAccum f start false false) s l = scan f (st_acc s) l.
 Proof. exact sem_accumulate. Qed.
 Theorem C10_slice_md : forall start stop step s l,
-  fold_outs (KSlice start stop step) s l = slice_sem start step (st_n s) l.
+  fold_outs (KSlice start stop step) s l = slice_sem start stop step (st_n s) l.
 Proof. exact sem_slice. Qed.
 Theorem C10_identity_md : forall k s l, k = KSource \/ k = KUnion ->
   fold_outs k s l = map (fun a => (aval a, amd a)) l.
